@@ -305,6 +305,10 @@ def box(x):
     if k == "py":
         if x.meta and "V" in x.meta:
             return x.meta["V"]
+        nm = getattr(x.t, "name", None)
+        if nm is not None and getattr(x.t, "recv", None) is None and type(x.t).__name__ == "ExtRef":
+            # an external constant (np.inf, np.nan, ...): opaque but stable
+            return z3.Const(f"ext:{nm}", V)
         raise Unsupported(f"cannot box python-level value {x.t!r}")
     raise Unsupported(f"box {k}")
 
